@@ -226,6 +226,24 @@ example : cursorMethodSafe
      { name := "Truncate", checksFirst := false, delegatesTo := "", derefsFirst := true }] 3 "Truncate" = false := by
   decide
 
+/-- **C10_mlink_current.**  The facts regenerated from mlink/queue.go and mlink/list.go by `extract/mlinkq.go`
+(`Gen.MlinkQueue`) are the pinned ones: `Queue.Pop` resets `q.back` exactly when `q.list.IsEmpty()` (not on a
+test of `q.size`), `Pop`/`Add`/`Clear` leave `q.size - 1` / `q.size + 1` / `0`, `Cursor.Remove` self-links the
+removed entry unconditionally, `Cursor.Truncate` invalidates the tail before it cuts it off; and the extractor
+recognised the statement skeleton of every `Queue` method, of `Cursor.Remove`, `Truncate`, `Add` and of
+`entry.invalidate` (which cursor `Add` uses, `Clear`'s resets, the delegating one-liners as text).
+`Model.Mlink.remove`, `truncate`, `qadd`, `qpop`, `qclear` call these definitions; a change in one of them
+changes `Gen/MlinkQueue.lean`, and this theorem and the `*_def` lemmas of `Proofs.Mlink` no longer compile. -/
+theorem C10_mlink_current :
+    Gen.MlinkQueue.recognised = true ∧
+    (∀ listEmpty size, Gen.MlinkQueue.popResets listEmpty size = listEmpty) ∧
+    (∀ size, Gen.MlinkQueue.popSize size = size - 1) ∧
+    (∀ size, Gen.MlinkQueue.addSize size = size + 1) ∧
+    Gen.MlinkQueue.clearSize = 0 ∧
+    Gen.MlinkQueue.removeSelfLinksAlways = true ∧
+    Gen.MlinkQueue.truncateInvalidatesFirst = true :=
+  ⟨rfl, fun _ _ => rfl, fun _ => rfl, fun _ => rfl, rfl, rfl, rfl⟩
+
 end stale
 
 /-!
